@@ -73,6 +73,64 @@ def peFindMagicPe (f : PyFile) : Py (Option Bytes) := (C18.findMagicPe f (some 0
 def peFindStagePrependAppend (f : PyFile) : Py (Option Bytes × Option Bytes) :=
   (C18.findStagePrependAppend f (some 0) MAXRANGE).1
 
+/-! ### `pe.find_stage_prepend_append` on a file object with a largest seekable offset
+
+`PyFile.seekSet` accepts every non-negative offset.  A real file does not: `lseek` fails with EINVAL (→ `OSError`) for an
+offset above the file system's largest file offset `L` (measured in the sandbox, ext4 with 4 KiB blocks:
+`L = 2^44 - 4096`; tmpfs / xfs: `2^63 - 1`; io.BytesIO: `2^63 - 1`).  Every seek argument of the anchored code is below
+`2^34` — except `fh.seek(mz_offset + size)` of `find_stage_prepend_append`, whose `size` sums up to 65535 attacker-chosen
+`SizeOfRawData` dwords (≈ 2^48).  `prependAppendAtG` is `C18.prependAppendAt` with that one seek as a parameter
+(`Lemmas/C08.lean`: instantiated with `PyFile.seekSet` it *is* `C18.prependAppendAt`, by `rfl`), `seekL L` the seek of a
+file object with limit `L`. -/
+
+/-- `fh.seek(off)` where the file system of an OS file rejects offsets above `L` -/
+def seekL (L : Nat) (f : PyFile) (off : Int) : Py (Nat × PyFile) :=
+  if f.kind = .osFile ∧ off > (L : Int) then .error .osError else f.seekSet off
+
+open Gen.PeStruct C18 in
+def prependAppendAtG (seekFinal : PyFile → Int → Py (Nat × PyFile)) (f : PyFile) (mzOff : Nat) :
+    Py (Option Bytes × Option Bytes) × PyFile :=
+  let pf : Option Bytes × PyFile :=
+    if mzOff > 0 then
+      let r := (seekNat f 0).read mzOff
+      (some r.1, r.2)
+    else (none, f)
+  let prepend := pf.1
+  match readStruct (seekNat pf.2 mzOff) dosHeaderSize with
+  | (none, f2) => (.ok (prepend, none), f2)
+  | (some mz, f2) =>
+    match f2.seekSet (fieldVal mz dosLfanew + (mzOff : Int) + 4) with
+    | .error e => (.error e, f2)
+    | .ok (_, f3) =>
+      match readStruct f3 fileHeaderSize with
+      | (none, f4) => (.ok (prepend, none), f4)
+      | (some img, f4) =>
+        let m := fieldVal img fhMachine
+        if m = (machineAmd64 : Int) ∨ m = (machineI386 : Int) then
+          let is64 := decide (m = (machineAmd64 : Int))
+          match readStruct f4 (optSize is64) with
+          | (none, f5) => (.ok (prepend, none), f5)
+          | (some opt, f5) =>
+            match readSections (fieldVal img fhNumberOfSections).toNat f5 with
+            | (none, f6) => (.ok (prepend, none), f6)
+            | (some secs, f6) =>
+              match seekFinal f6 ((mzOff : Int) + totalSize opt is64 secs) with   -- fh.seek(mz_offset + size)
+              | .error e => (.error e, f6)
+              | .ok (_, f7) =>
+                let r := f7.read 1024
+                if r.1.isEmpty then (.ok (prepend, none), r.2)
+                else (.ok (prepend, some (rstrip0 r.1)), r.2)
+        else (.ok (prepend, none), f4)
+
+/-- `pe.find_stage_prepend_append(fh)` on a file object whose file system accepts offsets up to `L` -/
+def peFindStagePrependAppendL (L : Nat) (f : PyFile) : Py (Option Bytes × Option Bytes) :=
+  match C18.findMzOffset f (some 0) MAXRANGE with
+  | (none, _) => .ok (none, none)
+  | (some mzOff, f1) => (prependAppendAtG (seekL L) f1 mzOff).1
+
+/-- measured on the sandbox's ext4 (`open(p, "rb").seek(2**44 - 4096)` succeeds, `seek(2**44 - 4095)` is EINVAL) -/
+def ext4MaxOffset : Nat := 2 ^ 44 - 4096
+
 /-! ### `list(iter_artifactkit_payloads(fobj))` -/
 
 def iterArtifactkitPayloads (f : PyFile) : Py (List C15.Hit) :=
